@@ -199,6 +199,7 @@ u8_t *buffergroup::require_buffer_entry(const u8_t id)
   WV_EVENT(WVE_WORKER_ENTER, NULL, id, 0);
   // the worker may look at its buffer only after the I/O thread has published it
   ctrl[id].wait_ready();
+  WV_POINT(WVP_WORKER_STATE, &ctrl[id]);
   if (!ctrl[id].cmpstate(READY))
     return NULL;
   WV_POINT(WVP_GET_ENTRY, &buflst[id]);
